@@ -154,7 +154,7 @@ class TLCResult:
 
 
 def run_tlc(module, cfg, workdir, env=None, workers=None, simulate=None, depth=None, seed=None,
-            coverage=False, timeout=900, heap="8g", deadlock=True, dfs=False, extra=(), continue_=False):
+            coverage=False, timeout=900, heap="8g", deadlock=True, dfs=False, extra=(), continue_=False, cwd=None):
     """Run TLC on spec/<module>.tla with spec/<cfg>.  workdir gets the metadir.  Returns TLCResult."""
     res = TLCResult()
     meta = tempfile.mkdtemp(prefix="tlc-", dir=workdir)
@@ -181,7 +181,7 @@ def run_tlc(module, cfg, workdir, env=None, workers=None, simulate=None, depth=N
         e.update({k: str(v) for k, v in env.items()})
     t0 = time.time()
     try:
-        p = subprocess.run(cmd, cwd=SPEC, env=e, stdout=subprocess.PIPE, stderr=subprocess.STDOUT, timeout=timeout)
+        p = subprocess.run(cmd, cwd=cwd or SPEC, env=e, stdout=subprocess.PIPE, stderr=subprocess.STDOUT, timeout=timeout)
         res.rc = p.returncode
         res.out = p.stdout.decode(errors="replace")
     except subprocess.TimeoutExpired as ex:
